@@ -113,6 +113,19 @@ CHECKS = {
         technique="CFG + typestate abstract interpretation of the pump, who-may-use rules on iterator/buffer variables",
         design="4/C10",
     ),
+    "C11": dict(
+        category="other",
+        text="A1 the names obj_to_events hides when None equal the fields the framing walkers can omit (computed from the "
+             "specialised traces), and no nullable field elsewhere in L shares such a name; A2 its union name test coincides "
+             "with `has _selected_by` on all 616 dataclasses of L; A3 shapes/order/paths of the events it builds equal the "
+             "decoder's; A4 both directions build tpm_type(**values) by field name, resolve area layouts through the decoder's "
+             "tables and keys, recognise encrypted areas by TPM2B_ENCRYPTED_PARAM's field names, remember a Response's command "
+             "code; A5 sibling rule: every node the decoder announces with an event but returns as None is mapped to None by "
+             "the events->object builder too. These are necessary conditions; the round trips themselves are not decided.",
+        note="trusted: CPython ast; L (E1); dataclass equality semantics.",
+        technique="agreement (sibling) rules between decoder traces, the static layout model and the two converters",
+        design="4/C11",
+    ),
     "C12": dict(
         category="other",
         text="P1 effect analysis of all functions reachable from the decode / conversion entry points (call graph with "
@@ -200,6 +213,19 @@ CHECKS = {
              "codes (bits 7 and 8 clear) are outside the property's domain and not judged.",
         technique="symbolic path enumeration of the two classifier methods + exhaustive finite-domain comparison with a reference tree",
         design="4/C18",
+    ),
+    "C19": dict(
+        category="other",
+        text="Necessary structural conditions only: L1 argparse choices equal the keys of the dispatch dicts and each key maps "
+             "to the front-end/printer of its name; L2 every refusal path returns a non-zero constant after a stderr message, "
+             "the normal end returns 0, main exits with the sub-command's status; L3 convert hands type, command code, the file "
+             "bytes and warn mode to the selected front-end and prints every item the selected printer yields (hex for bytes) "
+             "with no cut in the loop; L4 the type search decodes strictly and catches exactly the documented error classes; "
+             "L5 example output is under the command-code filter / exact-type selection and rendered from one event list. The "
+             "statement's observable (stdout / exit status of a process) is not decided.",
+        note="weakest claim: shape of __main__.py only; trusted: argparse semantics.",
+        technique="table agreement + return-status and def-use lint over the CLI module",
+        design="4/C19",
     ),
     "C20": dict(
         category="proof",
